@@ -151,7 +151,7 @@ PROPS["C08"] = {
                  "C08_get_best_first", "C08_prefers_is_two_sided", "C08_f32_order_total", "C08_sort_is_permutation",
                  "C08_prefers_is_two_sided_binary32", "C08_cmp_laws_hold_for_binary32"],
     "model_targets": ["Model/Matches.vo"],
-    "runs": [{"level": "container", "args_quick": ["--n", "500"], "args_thorough": ["--n", "40000"]},
+    "runs": [{"level": "container", "args_quick": ["--n", "500"], "args_thorough": ["--n", "6000"]},
              detect_run("C08", 150, 3000)],
     "search": {"level": "container", "args": ["--n", "6000"]},
     "rule": "containers of 1..64 matches built through the hook constructor with keys from tie-heavy / cyclic grids (chaos on and "
